@@ -219,6 +219,12 @@ def check_traces(ctx, traces, prop, label):
                 continue
             reason = o[4:] if o.startswith("err ") else o
             sig = KNOWN_REASON_SIGNATURE.get(reason)
+            if sig is not None and reason == "stream-after-reset:empty-open-notify":
+                # the finding covers retransmissions of the frame only (see e2e.open_notify_is_retransmission)
+                t = op.split()
+                rec = next((r for r in tr.recs if r.kind == "txp" and r.ep == ep and r.space == "app" and r.pn == int(t[2])), None)
+                if rec is None or not e2e.open_notify_is_retransmission(tr, ep, int(t[3]), rec.idx):
+                    sig = None
             if sig is not None:
                 if prop == "C12":
                     ctx.violation(sig, f"endpoint {ep}: `{op}` — the empty stream-open STREAM frame is re-sent after RESET_STREAM",
